@@ -35,7 +35,8 @@ RULE = ('corpus; second-vote dictionaries over 2..6 parties, house 1..40, direct
 PARTIAL = ['LevelOverhangByConstituency: modelled and proved over arbitrary evaluators (C15_byc_*); no termination bound for its loop (refuted '
            'with a Tie key: C15_byc_terminates_refuted; otherwise out-of-fuel is excluded by hypothesis); max_seats not modelled; with parties '
            'outside the tier holding first round seats no theorem links the tested house n - drop + adj to the distributed house n + adj; '
-           '"party totals = proportional distribution of the enlarged house" of the ByParty stage is judged on the implementation side only; '
+           '"party totals = proportional distribution of the enlarged house" is proved for Tie-free results with all first round seats in the '
+           'tier (C15_byc_final_totals); '
            'the implementation-side by-constituency stream does not judge elections with a tie inside the inner evaluator (the model streams do)']
 TRUSTED = []
 DIV = {1: 'd_hondt', 2: 'sainte_lague'}
